@@ -502,7 +502,6 @@ func cmdCheck(args []string) int {
 	// one representative per known finding is confirmed and kept as a replay file too
 	seenKnown := map[string]bool{}
 	var todo []line
-	todo = append(todo, a.fails...)
 	for _, f := range a.knownFails {
 		k := f.Class + "|" + fmt.Sprint(f.Shape)
 		if !seenKnown[k] {
@@ -510,6 +509,11 @@ func cmdCheck(args []string) int {
 			todo = append(todo, f)
 		}
 	}
+	todo = append(todo, a.fails...)
+	// a defect that shows in many shapes is reported with its first few; confirming and minimising every one of
+	// hundreds of failing runs would take hours and add nothing
+	const maxViolations = 8
+	unconfirmed := 0
 	minStart := time.Now()
 	minTotal := 60
 	if e.tier == "thorough" {
@@ -533,6 +537,10 @@ func cmdCheck(args []string) int {
 			}
 		}
 		if reported[key] {
+			continue
+		}
+		if !f.Known && violations >= maxViolations {
+			unconfirmed++
 			continue
 		}
 		// confirm
@@ -599,6 +607,9 @@ func cmdCheck(args []string) int {
 		exit = 1
 		fmt.Printf("VIOLATION property=%s replay=%s\n", e.prop, dst)
 		fmt.Printf("  class=%s seed=%d fault_free=%v\n  %s\n", f.Class, f.Seed, f.FF, truncate(f.Detail, 3000))
+	}
+	if unconfirmed > 0 {
+		fmt.Printf("kapsim: %d more failing runs (other classes or shapes) were not confirmed and minimised; their replay files are in the scratch directory of this run only\n", unconfirmed)
 	}
 	// known findings listed but not hit are still announced (they are findings of the tree, not of this run)
 	for _, k := range findings {
